@@ -17,4 +17,6 @@ impl<T> Mutex<T> {
 impl<T> RwLock<T> {
     #[verifier::external_body]
     pub fn write(&self) -> (g: &mut T) ensures lock_inv(*g) { unimplemented!() }
+    #[verifier::external_body]
+    pub fn read(&self) -> (g: &T) ensures lock_inv(*g) { unimplemented!() }
 }
